@@ -39,7 +39,7 @@ from vk.registry import bounded, contract
 
 LEVEL = "other"  # one clause of three is proved (see the docstring); the other two are measured
 TRUSTED = [
-    "conservative scleronomic System callee contract: every System quantity an uninterpreted function of q only (no explicit time), q_dot = B(q) u, g_dot = W_g(q)^T u, h(q, u) = h0(q) + G(q)[u, u] (potential + gyroscopic forces, even in u), no contacts / actuators / compliance / velocity constraints; step_callback is the identity (normalisation is invisible to the System: C01/C04/C11)",
+    "conservative scleronomic System callee contract: every System quantity an uninterpreted function of q only (no explicit time), q_dot = B(q) u, g_dot = W_g(q)^T u, h(q, u) = h0(q) + G(q)[u, u] (potential + gyroscopic forces, even in u), one conservative force law in compliance form (multiplier a function of q: c = la_c - lambda(q)), no contacts / actuators / velocity constraints; step_callback is the identity (normalisation is invisible to the System: C01/C04/C11)",
     "the nonlinear solve returns an exact root of the function it was given (tolerance: composition with C22); linear solves A x = b; uniqueness of the roots is not proved",
     "energy-error boundedness and the order-2 error ratio are NOT proved: bounded stand-in only (real pendula / chains, stated horizons and step sizes)",
 ]
@@ -71,12 +71,20 @@ class ConsStub(SysStub):
     def chi_g(self, t, q):
         return np.zeros(self.nla_g, dtype=object) + S.ZERO
 
+    # a conservative force law in compliance form: the multiplier is a function of the configuration only,
+    # c(q, la_c) = la_c - lambda(q) (what the compliance residual of a spring says, solved for la_c)
+    def la_c(self, t, q, u):
+        return super().fn("la_c", self.nla_c, q)
+
+    def c(self, t, q, u, la_c, **kw):
+        return np.asarray(la_c, dtype=object) - self.la_c(t, q, u)
+
     def g_dot(self, t, q, u):
         with npshim.active(True):
             return np.asarray(self.W_g(t, q), dtype=object).view(np.ndarray).T @ np.asarray(u, dtype=object)
 
 
-SIZES = dict(nq=2, nu=2, nla_g=1, nla_gamma=0, nla_c=0, nla_tau=0, nla_N=0, nla_F=0)
+SIZES = dict(nq=2, nu=2, nla_g=1, nla_gamma=0, nla_c=1, nla_tau=0, nla_N=0, nla_F=0)
 
 
 @contract("C19", "Rattle/step equations are invariant under time reversal", samples=0, replayable=False, timeout=120)
@@ -145,8 +153,9 @@ def c_reversible(k):
                     x1 = np.array(loc["x1n1"], dtype=object)
                     x2 = np.array(loc["x2n1"], dtype=object)
                     nq, nu, ng = sysm.nq, sysm.nu, sysm.nla_g
+                    nc = sysm.nla_c
                     q1, u12 = x1[:nq], x1[nq : nq + nu]
-                    Pg1 = x1[nq + nu : nq + nu + ng]
+                    Pg1 = x1[nq + nu + nc : nq + nu + nc + ng]
                     u1, Pg2 = x2[:nu], x2[nu : nu + ng]
                     state["fwd"] = dict(q1=q1, u12=u12, Pg1=Pg1, u1=u1, Pg2=Pg2, stored_q=np.array(s.qn, dtype=object), stored_u=np.array(s.un, dtype=object))
                     # loop invariant (assumed at the head of the first round): the cached System quantities belong to the current state
@@ -157,7 +166,8 @@ def c_reversible(k):
                     # time reversal: same configuration, reversed velocity; the reversed step is offered the reversed data
                     s.un = -np.array(s.un, dtype=object)
                     script["mode"] = "scripted"
-                    script["x"] = np.concatenate([state["q0"], -u12, Pg2])
+                    # (compliance multiplier of the reversed stage 1: the law evaluated at the state the reversed step starts from)
+                    script["x"] = np.concatenate([state["q0"], -u12, np.asarray(sysm.la_c(0, q1, u12), dtype=object), Pg2])
                     state["n_solves"] = len(lin.solves)
                 else:
                     state["bwd"] = dict(loc)
